@@ -6,11 +6,11 @@ package corebgp
 // Real peer.start(): real manager, both real FSMs, real readers; remote side scripted.
 
 type c07env struct {
-	cfg            symCfg
-	remoteID       uint32
-	pl             *monPlugin
-	p              *peer
-	out, in        *symConn
+	cfg      symCfg
+	remoteID uint32
+	pl       *monPlugin
+	p        *peer
+	out, in  *symConn
 }
 
 func c07Setup(delays int) *c07env {
